@@ -217,6 +217,11 @@ pub fn generate_c16(run_seed: u64, thorough: bool) -> ListDesc {
             let kind = g.r.weighted(&[30, 26, 4, 5, 5, 3, 6, 7, 5, 2, 2, 3, 2, 1, 1]);
             let mut origin = if g.r.chance(45, 100) { Origin::Script } else { Origin::Rust };
             let op = match kind {
+                0 if g.r.chance(1, 8) => {
+                    origin = Origin::Script;
+                    cur[h] = None;
+                    Op::GetMove { h, i: idx(&mut g) }
+                }
                 0 => Op::Get { h, i: idx(&mut g) },
                 1 => {
                     lens[lid] += 1;
@@ -342,7 +347,7 @@ pub fn generate_c15(run_seed: u64, thorough: bool, faults: bool) -> ListDesc {
         m.heap.new_list(inner_init[k].clone());
     }
     let script_ok = |op: &Op| -> bool { !matches!(op, Op::IterConsume { .. } | Op::IterWithPush { .. } | Op::InnerPush { .. } | Op::FromVec { .. } | Op::CloneH { .. } | Op::DropH { .. } | Op::ToVec { .. } | Op::Iter { .. } | Op::Debug { .. }) };
-    let rust_ok = |op: &Op| -> bool { !matches!(op, Op::TmpGet { .. } | Op::BranchLit { .. } | Op::Lit9 { .. } | Op::Join { .. } | Op::ForCount { .. } | Op::ForSum { .. } | Op::ForPush { .. } | Op::ForFind { .. }) };
+    let rust_ok = |op: &Op| -> bool { !matches!(op, Op::GetMove { .. } | Op::TmpGet { .. } | Op::BranchLit { .. } | Op::Lit9 { .. } | Op::Join { .. } | Op::ForCount { .. } | Op::ForSum { .. } | Op::ForPush { .. } | Op::ForFind { .. }) };
     for _ in 0..nops {
         let filled: Vec<usize> = (0..nslots).filter(|&s| m.slots[s].is_some()).collect();
         let any = |g: &mut Gen| g.r.below(nslots as u64) as usize;
@@ -380,7 +385,7 @@ pub fn generate_c15(run_seed: u64, thorough: bool, faults: bool) -> ListDesc {
                     _ => g.r.below(len + 2),
                 }
             };
-            match g.r.weighted(&[22, 12, 3, 2, 2, 6, 5, 4, 8, 7, 5, 3, 2, 3, 4, 3, 3, 3, 3, 4, 3, 3, 3]) {
+            match g.r.weighted(&[22, 12, 3, 2, 2, 6, 5, 4, 8, 7, 5, 3, 2, 3, 4, 3, 3, 3, 3, 4, 3, 3, 3, 2]) {
                 0 => Op::Push { h, v: fresh(&mut g) },
                 1 => Op::Get { h, i: idx(&mut g) },
                 2 => Op::Len { h },
@@ -420,6 +425,7 @@ pub fn generate_c15(run_seed: u64, thorough: bool, faults: bool) -> ListDesc {
                 }
                 18 => Op::Concat { a: h, b: h, dst: Some(any(&mut g)), plus: false },
                 20 => Op::TmpGet { vals: (0..2).map(|_| fresh(&mut g)).collect(), i: g.r.below(3) },
+                23 => Op::GetMove { h, i: idx(&mut g) },
                 22 => {
                     // prefer an alias slot that holds the same list
                     let same: Vec<usize> = (0..nslots).filter(|&s| s != h && m.slots[s] == m.slots[h]).collect();
@@ -504,7 +510,7 @@ fn lop_of(op: &Op, ids: &[Option<usize>]) -> Option<LOp> {
     let id = |s: &usize| ids.get(*s).copied().flatten();
     Some(match op {
         Op::Push { h, v } => LOp::Push { l: id(h)?, v: v.clone() },
-        Op::Get { h, i } => LOp::Get { l: id(h)?, i: *i },
+        Op::Get { h, i } | Op::GetMove { h, i } => LOp::Get { l: id(h)?, i: *i },
         Op::Len { h } => LOp::Len { l: id(h)? },
         Op::IsEmpty { h } => LOp::IsEmpty { l: id(h)? },
         Op::Cap { h } => LOp::Cap { l: id(h)? },
@@ -531,6 +537,7 @@ pub fn op_label(op: &Op, origin: &Origin) -> String {
         Op::BranchLit { .. } => "branch-literal",
         Op::TmpGet { .. } => "get-on-temporary",
         Op::IterConsume { .. } => "consuming-into_iter",
+        Op::GetMove { .. } => "get-moving-handle",
         Op::IterWithPush { .. } => "into_iter-with-push",
         Op::CloneH { .. } => "clone",
         Op::DropH { .. } => "drop",
@@ -656,15 +663,15 @@ where
                         break;
                     }
                 } else {
-                    match op {
-                        Op::CloneH { src, dst } => ids[*dst] = ids[*src],
-                        Op::DropH { h } => ids[*h] = None,
-                        _ => {}
-                    }
                     let lop = match op {
                         Op::CloneH { .. } | Op::DropH { .. } => Some(LOp::Nop),
                         _ => lop_of(op, &ids),
                     };
+                    match op {
+                        Op::CloneH { src, dst } => ids[*dst] = ids[*src],
+                        Op::DropH { h } | Op::GetMove { h, .. } => ids[*h] = None,
+                        _ => {}
+                    }
                     if let Some(lop) = lop {
                         hist.lock().unwrap().push(Event { tid: t, inv, ret, op: lop, obs });
                     }
@@ -962,7 +969,7 @@ pub fn shrink(d: &ListDesc) -> Vec<ListDesc> {
     for t in 0..d.threads.len() {
         for k in 0..d.threads[t].ops.len() {
             let (op, origin) = &d.threads[t].ops[k];
-            if *origin == Origin::Script && !matches!(op, Op::Join { .. } | Op::ForCount { .. } | Op::ForSum { .. } | Op::ForPush { .. } | Op::ForFind { .. } | Op::Concat { plus: true, .. } | Op::Eq { ne: true, .. } | Op::Lit3 { .. } | Op::Lit9 { .. } | Op::BranchLit { .. } | Op::TmpGet { .. }) {
+            if *origin == Origin::Script && !matches!(op, Op::Join { .. } | Op::ForCount { .. } | Op::ForSum { .. } | Op::ForPush { .. } | Op::ForFind { .. } | Op::Concat { plus: true, .. } | Op::Eq { ne: true, .. } | Op::Lit3 { .. } | Op::Lit9 { .. } | Op::BranchLit { .. } | Op::TmpGet { .. } | Op::GetMove { .. }) {
                 let mut c = d.clone();
                 c.threads[t].ops[k].1 = Origin::Rust;
                 out.push(c);
